@@ -35,7 +35,7 @@ end
 mutual
 theorem tfield_eq_strip (o : Opts) (hs : o.ser = .off) (c : Nat) (f : FI) : ∀ v : PVal, instOnly v = true →
     tfield o o.filter v = (fieldD o c f v).map (strip o.tf)
-  | .atom a, _ => by simp [tfield, fieldD, serFieldAtom, hs, strip]
+  | .atom a, _ => by simp [tfield, fieldD, serFieldAtom, serApplies, hs, strip]
   | .inst c' h fs, hi => by
     have ih := tupleOf_eq_strip o hs c' fs (by simpa [instOnly] using hi)
     simp only [tfield, fieldD, hs, ih]
@@ -88,7 +88,7 @@ theorem fieldsD_flat (o : Opts) (c : Nat) (hf : o.filter = .none) (hs : o.ser = 
     simp only [allAtoms, List.all_cons, Bool.and_eq_true] at h
     have ih := fieldsD_flat o c hf hs r h.2
     cases v with
-    | atom a => simp [fieldsD, hf, fieldD, serFieldAtom, hs, ih, flatItems, embed, passes]
+    | atom a => simp [fieldsD, hf, fieldD, serFieldAtom, serApplies, hs, ih, flatItems, embed, passes]
     | inst _ _ _ => simp [isAtom] at h
     | coll _ _ => simp [isAtom] at h
     | dict _ _ => simp [isAtom] at h
